@@ -172,6 +172,8 @@ def _describe(t, reached):
         n = sum(1 for x in evs[:reached] if x["a"] == "KW")
         what = (f"round keys obtained for this call differ from the FIPS-197 key expansion of the call's key "
                 f"at word {n} (key schedule or round-key cache)")
+        if n == 0:
+            what += "; or the call had to be rejected with ValueError (wrong key / IV / data length) and was not"
     elif a in ("ARK", "SUB", "SHIFT", "MIX", "ISHIFT", "ISUB", "IMIX"):
         what = f"round step {a} is not the specification's next step or gives a different state (state before: {prev_state})"
     elif a == "Blk":
@@ -196,10 +198,16 @@ def run(ctx):
     # 2. start the recorder first (it runs while TLC checks the specification)
     out = ctx.scratch / "aes-traces.json"
     job = {"seed": ctx.seed, "thorough": ctx.thorough, "out": str(out)}
+    if ctx.replay:      # re-run exactly the call of a replay file (tables + that call); the cache history is not replayed
+        call = ((json.loads(Path(ctx.replay).read_text()).get("case") or {}).get("call")) or {}
+        if call.get("fn"):
+            job["replay"] = call
+            ctx.log(f"replaying {call['fn']} key={call['key']} iv={call['iv']} data={call['data']}")
     proc = subprocess.Popen([PY, "-m", "mbv.props.c20", "worker", json.dumps(job)], env=child_env(),
                             cwd=str(VERIF), stdout=subprocess.PIPE, stderr=subprocess.PIPE, text=True)
     try:
-        _spec_theorems(ctx)
+        if "replay" not in job:
+            _spec_theorems(ctx)
     except BaseException:
         proc.kill()
         raise
@@ -570,6 +578,25 @@ def _worker(job):
         return out
 
     names = {fn: (name, has_iv) for name, fn, has_iv in rec.MODES}
+    if job.get("replay"):
+        c = job["replay"]
+        k, i, d = (bytes.fromhex(c.get(x) or "") for x in ("key", "iv", "data"))
+        del traces[:]
+        for e in tev:
+            add("table:" + e["name"], "tables", [e], where=e["name"])
+        if c["fn"] in names:
+            mode_call(names[c["fn"]][0], c["fn"], k, i if names[c["fn"]][1] else None, d, "replay")
+        elif c["fn"] == "expand":
+            rec.call_expand(k)
+            add(f"replay:expand:k{len(k)}", "call", rec.log, fn="expand", keylen=len(k), blocks=0, where="_expand_key")
+        else:
+            b0 = rec.blocks
+            rec.call_wrap(CryptAES, c["fn"], k, d)
+            add(f"replay:{c['fn']}:k{len(k)}:n{len(d)}", "call", rec.log, fn=c["fn"], keylen=len(k),
+                blocks=rec.blocks - b0, len=len(d), where="patch_pypdf_fallback_aes")
+        stats.update(blocks=rec.blocks, wall_s=time.time() - t0, wrapper_lengths="replay", calls=1)
+        Path(job["out"]).write_text(json.dumps({"traces": traces, "stats": stats}, separators=(",", ":")))
+        return 0
     # ---- random mode calls
     budget = 5000 if thorough else 200
     last_ct = {}
